@@ -21,7 +21,7 @@ func recExplain(r *Report) {
 
 func runC01(p *Prog, r *Report) {
 	recExplain(r)
-	ruleRec(p, r, 11, recExtra(p))
+	ruleRec(p, r, 6, recExtra(p))
 	r.Explain = append(r.Explain, "R-SYNC: every function that stores Buffer.Info re-sizes Buffer.Pos on every path through that store (directly or through a callee that does so on all its paths) or is confined to output mode; swapBuffers/clearPositions take the new Pos length from len(Info); every clearOutput() is closed by swapBuffers() on all paths.")
 	ruleSync(p, r, syncCfg{pkg: "harfbuzz", typ: "Buffer", info: "Info", pos: "Pos", haveOutput: "haveOutput",
 		clearOutput: "clearOutput", swap: "swapBuffers", resync: []string{"swapBuffers", "clearPositions"}, floorWriters: 7, floorBrackets: 9})
